@@ -528,6 +528,14 @@ def _replay_model(m0, expr, info, sub, by, lay, H, phi, oracle, oname, I, zero_a
 
 def replay(cex):
     i = cex["inputs"]
+    if i.get("oracle") == "build":
+        try:
+            core.load_model_info(i["expr"])
+        except Exception as e:
+            print("real core.load_model_info(%r) raises %r" % (i["expr"], e))
+            return 1
+        print("real core.load_model_info(%r) succeeds" % i["expr"])
+        return 0
     if i.get("oracle") == "table":
         info = core.load_model_info(i["expr"])
         bad = part_layout(info)[1]
@@ -602,7 +610,17 @@ def unit(cfg):
     u = Unit(expr, timeout_ms=60000)
     u.functions(*FUNCS)
     C.install_shims()
-    info = core.load_model_info(expr)
+    try:
+        info = core.load_model_info(expr)
+    except Exception as e:
+        # every component is a builtin model: the expression must be buildable
+        u.r["obligations"] += 1
+        u.r["cex"].append({
+            "obligation": "expression-can-be-built", "reproduced": True,
+            "key": "C08/expression-cannot-be-built/%s" % type(e).__name__,
+            "what": "core.load_model_info(%r) raises %s: %s" % (expr, type(e).__name__, e),
+            "inputs": {"expr": expr, "oracle": "build"}})
+        return u.r
     seen = {}
     for sub in sub_configs(info):
         nm = "%s/%s/pd=%s%s" % (expr, sub[0], sub[1], "/magnetic" if sub[2] else "")
@@ -632,7 +650,8 @@ def expressions(quick, seed, light=None):
                   "sphere*power_law+cylinder*guinier",
                   "sphere+cylinder+power_law+core_shell_sphere",
                   "sphere*cylinder*guinier*lamellar",
-                  "core_multi_shell*sphere@hardsphere+vesicle"]
+                  "core_multi_shell*sphere@hardsphere+vesicle",
+                  "sphere+porod", "porod*sphere", "sphere+guinier*porod"]
     else:
         exprs = expressions(True, seed)
         allm = list(core.list_models())
